@@ -226,3 +226,46 @@ func H_C19_MulDiv64() {
 		verifrt.Assert(!fits, "Safe64MulDiv: spurious overflow error for a representable result")
 	}
 }
+
+// c19Small: one operand symbolic, the other from {0, 1, -1, 2, -2, MinT, MaxT}, both ways round. The general
+// 32/64-bit multiplication queries do not close (DESIGN.md 0.3); these slices of the operand space do, and they
+// contain the boundary pairs (identity, negation, doubling, the extreme values).
+func c19Small[T Integer](name string, f func(T, T) (T, error), exact func(T, T) (T, bool), consts []T) {
+	x := verifrt.Nondet[T]("x")
+	c := consts[verifrt.Choose("const", len(consts))]
+	a, b := x, c
+	if verifrt.Choose("swap", 2) == 1 {
+		a, b = c, x
+	}
+	r, err := f(a, b)
+	want, fits := exact(a, b)
+	if err == nil {
+		verifrt.Cover("ok")
+		verifrt.Assert(fits, name+": returned a value although the exact result is not representable (wrapped)")
+		verifrt.Assert(r == want, name+": returned a value different from the exact result")
+	} else {
+		verifrt.Cover("error")
+		verifrt.Assert(ierrors.Is(err, ErrIntegerOverflow), name+": error is not ErrIntegerOverflow")
+		verifrt.Assert(!fits, name+": spurious overflow error for a representable result")
+	}
+}
+
+//verif:h prop=C19 cover=ok,error solverms=20000 portfolio=120
+func H_C19_MulInt64_small() {
+	c19Small("SafeMulInt64 (one small or extreme operand)", SafeMulInt64, verifrt.ExactMul[int64], []int64{0, 1, -1, 2, -2, -1 << 63, 1<<63 - 1})
+}
+
+//verif:h prop=C19 cover=ok,error solverms=20000 portfolio=120
+func H_C19_Mul_int64_small() {
+	c19Small("SafeMul[int64] (one small or extreme operand)", SafeMul[int64], verifrt.ExactMul[int64], []int64{0, 1, -1, 2, -2, -1 << 63, 1<<63 - 1})
+}
+
+//verif:h prop=C19 cover=ok,error solverms=20000 portfolio=120
+func H_C19_Mul_int32_small() {
+	c19Small("SafeMul[int32] (one small or extreme operand)", SafeMul[int32], verifrt.ExactMul[int32], []int32{0, 1, -1, 2, -2, -1 << 31, 1<<31 - 1})
+}
+
+//verif:h prop=C19 cover=ok,error solverms=20000 portfolio=120
+func H_C19_Mul_uint32_small() {
+	c19Small("SafeMul[uint32] (one small or extreme operand)", SafeMul[uint32], verifrt.ExactMul[uint32], []uint32{0, 1, 2, 3, 1<<32 - 1})
+}
